@@ -77,7 +77,7 @@ def run_ref(run, prop, ecos, caps, seeded_fn=None, extra_jobs_fn=None, shard=350
                 jobs.append({"k": "matrix", "eco": eco, "tag": "Ux", "texts": [t for t, _ in blk], "part": [p for _, p in blk]})
     jobs += boundary_jobs(U, ecos, rnd, quick, maxval=boundary_max)
     # small scope: every token sequence of length <= 2 / 3 after a stem that the parser accepts (Tokens.tla)
-    tok, tokcounts = vlib.token_universe(run, exe, ecos, 2 if quick else 3, cap=700 if quick else 4200, rnd=rnd)
+    tok, tokcounts = vlib.token_universe(run, exe, ecos, 2 if quick else 3, cap=700 if quick else 8000, rnd=rnd)
     run.extra["token_universe_candidates_accepted"] = tokcounts
     for eco in ecos:
         tm = list(tok[eco]); rnd.shuffle(tm)
